@@ -1,7 +1,7 @@
 #!/bin/bash
 # runs every claimed check (tier $1, default quick) on the current tree, 6 at a time; prints one line per check
 TIER=${1:-quick}
-cd /verif
+cd "$(dirname "$0")/.."
 IDS=$(python3 -c "import json;print(' '.join(c['property_id'] for c in json.load(open('MANIFEST.json'))['checks']))")
 ./run.py --setup >/dev/null 2>&1
 printf "%s\n" $IDS | xargs -P 6 -I{} sh -c "./run.py --property {} --tier $TIER > /tmp/runall_{}.log 2>&1; echo \"{} exit=\$? \$(grep -c '^VIOLATION' /tmp/runall_{}.log) violations; \$(tail -1 /tmp/runall_{}.log)\""
